@@ -40,6 +40,7 @@ func (k Key) Bytes() []byte {
 		b[i] = byte(k.Id*37 + i*11 + k.Len)
 	}
 	b[0] = byte(k.Id)
+	b[1] = byte(k.Id >> 8)
 	return b
 }
 
@@ -74,14 +75,20 @@ func universe(pskLen int) []Key {
 
 func wrongKey(pskLen int) Key { return Key{9, 48 - pskLen} }
 
-func keyOfBytes(b []byte) string {
+var keyTable = func() map[string]Key {
+	m := map[string]Key{}
 	for _, l := range []int{16, 32} {
-		for _, id := range []int{1, 2, 3, 4, 9} {
+		for id := 1; id < 600; id++ {
 			k := Key{id, l}
-			if bytes.Equal(k.Bytes(), b) {
-				return k.String()
-			}
+			m[string(k.Bytes())] = k
 		}
+	}
+	return m
+}()
+
+func keyOfBytes(b []byte) string {
+	if k, ok := keyTable[string(b)]; ok {
+		return k.String()
 	}
 	return "?" + base64.StdEncoding.EncodeToString(b)
 }
